@@ -250,8 +250,12 @@ func create(w *cw.World, opts *types.DeployOptions) (map[string]int, int, error)
 // Stream emits n cases (quick / thorough as given) for property prop.
 func Stream(t *testing.T, prop string, quick, thorough int) {
 	r := vh.New(t, prop, "path")
+	okFn := "Calcium.DeployPath.pok"
+	if prop == "C03" {
+		okFn = "Calcium.DeployPath.pok3"
+	}
 	r.Coq("From Verif Require Import Base.GoFloat Cpumem.Types Cobalt.Merge Strategy.Model Strategy.Glue Calcium.DeployPath.\nClose Scope Z_scope.",
-		"Calcium.DeployPath.pcase", "Calcium.DeployPath.pagree", "Calcium.DeployPath.pok")
+		"Calcium.DeployPath.pcase", "Calcium.DeployPath.pagree", okFn)
 	r.Shard = 60
 	rng := r.Rng
 	strategies := []string{strategy.Auto, strategy.Fill, strategy.Each, strategy.Global, strategy.Drained}
@@ -260,6 +264,10 @@ func Stream(t *testing.T, prop string, quick, thorough int) {
 	var specs []nodeSpec
 	var second *scripted
 	left, worlds := 0, 0
+	// the harness's own bookkeeping of the deploy status of (app, web): instances it created
+	// plus in-flight markers it placed (NOT read back through store.GetDeployStatus)
+	var webCount, inflight map[string]int
+	ghosts := 0
 	for i := 0; i < n; i++ {
 		if left == 0 { // a fresh world with 1-4 nodes
 			if w != nil {
@@ -267,6 +275,7 @@ func Stream(t *testing.T, prop string, quick, thorough int) {
 			}
 			w = cw.New(t, cw.Options{})
 			second = nil
+			webCount, inflight = map[string]int{}, map[string]int{}
 			worlds++
 			if worlds%2 == 0 { // every second world has two plugins: the manager merges their answers
 				second = &scripted{Plugin: &pluginmocks.Plugin{}, caps: map[string]*plugintypes.NodeDeployCapacity{}}
@@ -297,6 +306,30 @@ func Stream(t *testing.T, prop string, quick, thorough int) {
 			left = 3 + rng.Intn(3)
 		}
 		left--
+		// deploy-status situations: in-flight instances on nodes without a finished one, and
+		// workloads of a sibling entrypoint whose name has "web" as a prefix
+		statusCase := rng.Intn(2) == 0
+		if statusCase {
+			for _, sp := range specs {
+				if webCount[sp.name] == 0 && rng.Intn(2) == 0 {
+					k := 1 + rng.Intn(3)
+					ghosts++
+					pr := &types.Processing{Appname: "app", Entryname: "web", Nodename: sp.name, Ident: fmt.Sprintf("ghost%d", ghosts)}
+					if err := w.RawStore.CreateProcessing(w.Ctx, pr, k); err != nil {
+						t.Fatalf("deploypath: CreateProcessing: %v", err)
+					}
+					inflight[sp.name] += k
+				}
+			}
+			if rng.Intn(4) > 0 {
+				sib := &types.DeployOptions{
+					Name: "app", Entrypoint: &types.Entrypoint{Name: "web2"}, Podname: "pod", Image: "img",
+					Count: 1 + rng.Intn(3), DeployStrategy: strategy.Auto, NodeFilter: &types.NodeFilter{Podname: "pod"},
+					Resources: mkRequest(false, 0, 10).resource,
+				}
+				create(w, sib) //nolint: only its effect on the store matters
+			}
+		}
 		// request
 		var q request
 		switch rng.Intn(10) {
@@ -311,6 +344,9 @@ func Stream(t *testing.T, prop string, quick, thorough int) {
 		}
 		s := strategies[rng.Intn(len(strategies))]
 		limit := []int{0, 0, 0, 1, 2, 3}[rng.Intn(6)]
+		if statusCase && rng.Intn(4) > 0 {
+			s, limit = strategy.Auto, 1+rng.Intn(4)
+		}
 		names := []string{}
 		for _, sp := range specs {
 			names = append(names, sp.name)
@@ -350,9 +386,11 @@ func Stream(t *testing.T, prop string, quick, thorough int) {
 			DeployedCount int
 		}
 		jns := []jn{}
-		status, err := w.RawStore.GetDeployStatus(w.Ctx, "app", "web")
-		if err != nil {
-			t.Fatalf("deploypath: GetDeployStatus: %v", err)
+		status := map[string]int{}
+		for _, sp := range specs {
+			if c := webCount[sp.name] + inflight[sp.name]; c > 0 {
+				status[sp.name] = c
+			}
 		}
 		for _, sp := range specs {
 			c, u := readNode(t, w, sp.name)
@@ -389,6 +427,9 @@ func Stream(t *testing.T, prop string, quick, thorough int) {
 		capTerm, capClass := classify(capPlan, cerr)
 		created, failed, werr := create(w, opts)
 		crTerm, crClass := classify(created, werr)
+		for k, v := range created {
+			webCount[k] += v
+		}
 		afterTerms := []string{}
 		for _, sp := range specs {
 			_, u := readNode(t, w, sp.name)
@@ -406,6 +447,9 @@ func Stream(t *testing.T, prop string, quick, thorough int) {
 		r.Count("capacity=" + capClass)
 		r.Count("create=" + crClass)
 		r.Count(fmt.Sprintf("nodes=%d", len(specs)))
+		if statusCase {
+			r.Count("deploy-status-situation")
+		}
 		if second != nil {
 			r.Count("plugins=2")
 		} else {
